@@ -7,26 +7,496 @@ import Mathlib.Data.List.Infix
 import Mathlib.Tactic.Linarith
 namespace NautilusVerif.Core
 
+/-! ## auxiliary lemmas -/
+
+theorem mem_modify_cases {α} (f : α → α) : ∀ (l : List α) (i : Nat) (x : α), x ∈ l.modify i f → x ∈ l ∨ ∃ y ∈ l, x = f y
+  | [], i, x, h => by simp at h
+  | a :: l, 0, x, h => by
+    simp only [List.modify_zero_cons, List.mem_cons] at h
+    rcases h with h | h
+    · exact Or.inr ⟨a, by simp, h⟩
+    · exact Or.inl (by simp [h])
+  | a :: l, i+1, x, h => by
+    simp only [List.modify_succ_cons, List.mem_cons] at h
+    rcases h with h | h
+    · exact Or.inl (by simp [h])
+    · rcases mem_modify_cases f l i x h with h | ⟨y, hy, e⟩
+      · exact Or.inl (by simp [h])
+      · exact Or.inr ⟨y, by simp [hy], e⟩
+
+theorem addBoundOk_fields (env : Env) (s : St) (b : BId) :
+    (addBoundOk env s b).explored = s.explored ∧ (addBoundOk env s b).discard = s.discard ∧
+    (addBoundOk env s b).nLike = s.nLike ∧ (addBoundOk env s b).nBatch = s.nBatch := by
+  unfold addBoundOk
+  dsimp only
+  split <;> simp
+
+theorem setDiscard_eq (s : St) (b : Bool) :
+    setDiscard s b = { s with discard := b, shells := s.shells.map (fun sh => { sh with nShown := (sh.ls.drop (if b && s.explored then sh.endExp else 0)).length }) } := by
+  rfl
+
+/-- rows moved from the transfer arrays by a successful `add_samples` -/
+def mvd (useT : Bool) (idxT' : List Nat) (arr : List Pt) : List Pt :=
+  if useT && !idxT'.isEmpty then idxT'.map (fun j => getD arr j 0) else []
+
+/-- net effect of a successful `add_samples` on its target shell -/
+def addF (s : St) (useT : Bool) (idxT' : List Nat) (points : List Pt) (nBound : Nat) (sh : Shell) : Shell :=
+  { sh with
+    nSample := sh.nSample + nBound
+    pts := sh.pts ++ mvd useT idxT' s.tPts ++ points
+    ls := sh.ls ++ mvd useT idxT' s.tLs ++ points
+    bs := sh.bs ++ mvd useT idxT' s.tBs ++ points
+    nShown := ((sh.ls ++ mvd useT idxT' s.tLs ++ points).drop (if s.discard && s.explored then sh.endExp else 0)).length }
+
+theorem addSamples_nf (env : Env) (s : St) (shellArg : Option Nat) (rounds : List Round) (idxT : List Nat) :
+    ((addSamples env s shellArg rounds idxT).1 = s ∧ (addSamples env s shellArg rounds idxT).2 ≠ .ok) ∨
+    ∃ points nBound idxT' tShell',
+      shellArg.getD (s.shells.length - 1) < s.shells.length ∧
+      sampleRounds env (s.shells.map (·.bound)) (shellArg.getD (s.shells.length - 1))
+        (shellArg.isNone && !s.tShell.isEmpty) s.nBatch rounds 0 0 [] s.tShell idxT [] =
+          some (points, nBound, idxT', tShell') ∧
+      ((shellArg.isNone && !s.tShell.isEmpty) = true → points.length + idxT'.length = nBound) ∧
+      addSamples env s shellArg rounds idxT =
+        ({ s with
+            shells := s.shells.modify (shellArg.getD (s.shells.length - 1))
+              (addF s (shellArg.isNone && !s.tShell.isEmpty) idxT' points nBound)
+            tShell := tShell'
+            nLike := s.nLike + points.length }, .ok) := by
+  unfold addSamples
+  dsimp only
+  by_cases h1 : s.shells.isEmpty
+  · left; rw [if_pos h1]; simp
+  rw [if_neg h1]
+  by_cases h2 : shellArg.getD (s.shells.length - 1) ≥ s.shells.length
+  · left; rw [if_pos h2]; simp
+  rw [if_neg h2]
+  cases hsr : sampleRounds env (s.shells.map (·.bound)) (shellArg.getD (s.shells.length - 1))
+        (shellArg.isNone && !s.tShell.isEmpty) s.nBatch rounds 0 0 [] s.tShell idxT [] with
+  | none => left; simp
+  | some res =>
+    obtain ⟨points, nBound, idxT', tShell'⟩ := res
+    dsimp only
+    by_cases h3 : ((shellArg.isNone && !s.tShell.isEmpty) && decide (points.length + idxT'.length ≠ nBound)) = true
+    · left; rw [if_pos h3]; simp
+    right
+    refine ⟨points, nBound, idxT', tShell', by omega, rfl, ?_, ?_⟩
+    · intro hu; simpa [hu] using h3
+    · rw [if_neg h3]
+      refine Prod.ext ?_ rfl
+      dsimp only [updateShellInfo]
+      congr 1
+      by_cases hc : ((shellArg.isNone && !s.tShell.isEmpty) && !idxT'.isEmpty) = true
+      · rw [if_pos hc]
+        have hm : ∀ arr, mvd (shellArg.isNone && !s.tShell.isEmpty) idxT' arr = idxT'.map (fun j => getD arr j 0) := by
+          intro arr; unfold mvd; rw [if_pos hc]
+        have hn : shellArg = none := by
+          cases shellArg with
+          | none => rfl
+          | some i => simp at hc
+        subst hn
+        simp only [Option.getD_none]
+        rw [List.modify_modify_eq, List.modify_modify_eq]
+        congr 1
+        funext sh
+        simp only [addF, hm, shown, start, Function.comp, List.append_assoc]
+      · rw [if_neg hc, List.modify_modify_eq]
+        have hm : ∀ arr, mvd (shellArg.isNone && !s.tShell.isEmpty) idxT' arr = [] := by
+          intro arr; unfold mvd; rw [if_neg hc]
+        congr 1
+        funext sh
+        simp only [addF, hm, shown, start, Function.comp, List.append_nil]
+
+theorem transferLoop_len (env : Env) (earlier : List BId) (inShell kept : List Pt) :
+    ∀ (fuel sh : Nat) (tShell : List Int) (stream acc : List Nat) (res : List Int × List Nat × List Nat),
+      transferLoop env earlier inShell kept fuel sh tShell stream acc = some res → res.1.length = tShell.length
+  | 0, sh, tShell, stream, acc, res, h => by
+    simp only [transferLoop, Option.some.injEq] at h
+    subst h; rfl
+  | fuel+1, sh, tShell, stream, acc, res, h => by
+    unfold transferLoop at h
+    dsimp only at h
+    split at h
+    · exact absurd h (by simp)
+    · have := transferLoop_len env earlier inShell kept fuel _ _ _ _ res h
+      simpa using this
+
+theorem sampleRounds_spec_cc (env : Env) (bounds : List BId) (index : Nat) (useT : Bool) (nBatch : Nat) :
+    ∀ (rounds : List Round) (nS nB : Nat) (pts : List Pt) (tShell : List Int) (stream idxT : List Nat)
+      (res : List Pt × Nat × List Nat × List Int),
+      sampleRounds env bounds index useT nBatch rounds nS nB pts tShell stream idxT = some res →
+      pts.length = nS → nS ≤ nB →
+      res.1.length = nBatch ∧ nBatch ≤ res.2.1 ∧ res.2.2.2.length = tShell.length ∧
+      (∀ p ∈ res.1, p ∈ pts ∨ ∃ r ∈ rounds, p ∈ r.props)
+  | [], nS, nB, pts, tShell, stream, idxT, res, h, hp, hb => by
+    simp only [sampleRounds] at h
+    split at h
+    · rename_i hc
+      simp only [Option.some.injEq] at h
+      subst h
+      simp only [Bool.and_eq_true, beq_iff_eq] at hc
+      refine ⟨by dsimp only; omega, by dsimp only; omega, rfl, fun p hp => Or.inl hp⟩
+    · exact absurd h (by simp)
+  | r :: rs, nS, nB, pts, tShell, stream, idxT, res, h, hp, hb => by
+    unfold sampleRounds at h
+    dsimp only at h
+    split at h
+    · exact absurd h (by simp)
+    rename_i hlt
+    split at h
+    · exact absurd h (by simp)
+    rename_i hlen
+    have hlen' : r.props.length = nBatch - nS := by simpa using hlen
+    have hin : (r.props.filter (fun p => (bounds.drop (index + 1)).all (fun b => !env.contains b p))).length
+        ≤ nBatch - nS := by
+      rw [← hlen']; exact List.length_filter_le _ _
+    have hmem : ∀ p ∈ r.props.filter (fun p => (bounds.drop (index + 1)).all (fun b => !env.contains b p)),
+        p ∈ r.props := fun p hp => (List.mem_filter.mp hp).1
+    split at h
+    · split at h
+      · exact absurd h (by simp)
+      rename_i tShell' stream' picked htl
+      split at h
+      · exact absurd h (by simp)
+      rename_i hk
+      split at h
+      · exact absurd h (by simp)
+      have hk' : r.kept = (r.props.filter (fun p => (bounds.drop (index + 1)).all (fun b => !env.contains b p))).filter
+          (fun p => r.kept.contains p) := by simpa using hk
+      have hkl : r.kept.length ≤ nBatch - nS := by
+        rw [hk']; exact le_trans (List.length_filter_le _ _) hin
+      have ih := sampleRounds_spec_cc env bounds index useT nBatch rs _ _ _ _ _ _ res h
+        (by simp [hp]) (by omega)
+      obtain ⟨h1, h2, h3, h4⟩ := ih
+      refine ⟨h1, h2, ?_, ?_⟩
+      · rw [h3]; exact transferLoop_len _ _ _ _ _ _ _ _ _ _ htl
+      · intro p hp
+        rcases h4 p hp with h | ⟨r', hr', hpr⟩
+        · rcases List.mem_append.mp h with h | h
+          · exact Or.inl h
+          · refine Or.inr ⟨r, by simp, ?_⟩
+            rw [hk'] at h
+            exact hmem p (List.mem_filter.mp h).1
+        · exact Or.inr ⟨r', by simp [hr'], hpr⟩
+    · split at h
+      · exact absurd h (by simp)
+      rename_i hk
+      have hk' : r.kept = r.props.filter (fun p => (bounds.drop (index + 1)).all (fun b => !env.contains b p)) := by
+        simpa using hk
+      have hkl : r.kept.length ≤ nBatch - nS := by rw [hk']; exact hin
+      have ih := sampleRounds_spec_cc env bounds index useT nBatch rs _ _ _ _ _ _ res h
+        (by simp [hp]) (by omega)
+      obtain ⟨h1, h2, h3, h4⟩ := ih
+      refine ⟨h1, h2, h3, ?_⟩
+      intro p hp
+      rcases h4 p hp with h | ⟨r', hr', hpr⟩
+      · rcases List.mem_append.mp h with h | h
+        · exact Or.inl h
+        · refine Or.inr ⟨r, by simp, ?_⟩
+          rw [hk'] at h
+          exact hmem p h
+      · exact Or.inr ⟨r', by simp [hr'], hpr⟩
+
+theorem map_modify_of_eq {α β} (g : α → β) (f : α → α) (h : ∀ x, g (f x) = g x) :
+    ∀ (l : List α) (i : Nat), (l.modify i f).map g = l.map g
+  | [], i => by simp
+  | a :: l, 0 => by simp [h]
+  | a :: l, i+1 => by simp [map_modify_of_eq g f h l i]
+
+theorem zip_self3 (l : List Pt) : l.zip (l.zip l) = l.map (fun p => (p, p, p)) := by
+  induction l <;> simp_all
+
+theorem flatten_drop_sublist (f : Shell → Nat) :
+    ∀ l : List Shell, ((l.map (fun sh => sh.pts.drop (f sh))).flatten).Sublist ((l.map (·.pts)).flatten)
+  | [] => by simp
+  | a :: l => by
+    simp only [List.map_cons, List.flatten_cons]
+    exact List.Sublist.append (List.drop_sublist _ _) (flatten_drop_sublist f l)
+
+theorem maskKeep_length_le (env : Env) (b : BId) (l key : List Pt) (keep : Bool) :
+    (maskKeep env b l key keep).length ≤ l.length := by
+  unfold maskKeep
+  rw [List.length_map]
+  refine le_trans (List.length_filter_le _ _) ?_
+  rw [List.length_zip]; exact Nat.min_le_left _ _
+
+theorem length_flatten_zipIdx_replicate (g : Shell → Nat) : ∀ (l : List Shell) (k : Nat),
+    (((l.zipIdx k).map (fun (shi : Shell × Nat) => List.replicate (g shi.1) (shi.2 : Int))).flatten).length
+      = ((l.map (fun sh => List.replicate (g sh) (0 : Pt))).flatten).length
+  | [], k => by simp
+  | a :: l, k => by
+    simp only [List.zipIdx_cons, List.map_cons, List.flatten_cons, List.length_append, List.length_replicate]
+    rw [length_flatten_zipIdx_replicate g l (k + 1)]
+
+theorem length_flatten_congr {α β γ} (f : γ → List α) (g : γ → List β) :
+    ∀ (l : List γ), (∀ x ∈ l, (f x).length = (g x).length) → ((l.map f).flatten).length = ((l.map g).flatten).length
+  | [], _ => by simp
+  | a :: l, h => by
+    simp only [List.map_cons, List.flatten_cons, List.length_append]
+    rw [h a (by simp), length_flatten_congr f g l (fun x hx => h x (by simp [hx]))]
+
+/-- shells after an accepted `add_bound` -/
+theorem addBoundOk_shells_mem (env : Env) (s : St) (b : BId) : ∀ sh ∈ (addBoundOk env s b).shells,
+    sh = { bound := b } ∨ ∃ sh0 ∈ s.shells, sh = { sh0 with
+      pts := maskKeep env b sh0.pts sh0.pts false
+      ls := maskKeep env b sh0.ls sh0.pts false
+      bs := maskKeep env b sh0.bs sh0.pts false
+      nShown := ((maskKeep env b sh0.ls sh0.pts false).drop (if s.discard && s.explored then sh0.endExp else 0)).length } := by
+  intro sh hsh
+  unfold addBoundOk at hsh
+  dsimp only at hsh
+  split at hsh
+  · rename_i he
+    have : s.shells = [] := by simpa using he
+    left; simpa [this] using hsh
+  · simp only [List.mem_map] at hsh
+    obtain ⟨shi, hmem, rfl⟩ := hsh
+    rw [List.mem_zipIdx_iff_getElem?, List.getElem?_append] at hmem
+    simp only [List.length_map] at hmem
+    split
+    · rename_i hlt
+      rw [if_pos hlt, List.getElem?_map] at hmem
+      right
+      cases hg : s.shells[shi.2]? with
+      | none => rw [hg] at hmem; simp at hmem
+      | some sh0 =>
+        rw [hg] at hmem
+        simp only [Option.map_some, Option.some.injEq] at hmem
+        refine ⟨sh0, List.mem_of_getElem? hg, ?_⟩
+        rw [← hmem]
+        simp [shown, start]
+    · rename_i hlt
+      rw [if_neg hlt] at hmem
+      left
+      have := List.mem_of_getElem? hmem
+      simpa using this
+
+theorem addBoundOk_transfers (env : Env) (s : St) (b : BId) (ha : Aligned s) :
+    (addBoundOk env s b).tLs = (addBoundOk env s b).tPts ∧ (addBoundOk env s b).tBs = (addBoundOk env s b).tPts ∧
+    (addBoundOk env s b).tShell.length = (addBoundOk env s b).tPts.length := by
+  unfold addBoundOk
+  dsimp only
+  split
+  · exact ha.2
+  · dsimp only
+    refine ⟨?_, ?_, ?_⟩
+    · congr 1; apply List.map_congr_left; intro sh hsh; rw [(ha.1 sh hsh).1]
+    · congr 1; apply List.map_congr_left; intro sh hsh; rw [(ha.1 sh hsh).2]
+    · rw [length_flatten_zipIdx_replicate (fun sh => (maskKeep env b sh.pts sh.pts true).length)]
+      apply length_flatten_congr
+      intro x _; simp
+
+theorem mvd_len (env : Env) (bounds : List BId) (index : Nat) (useT : Bool) (nBatch : Nat) (rounds : List Round)
+    (tShell : List Int) (stream : List Nat) (points : List Pt) (nBound : Nat) (idxT' : List Nat) (tShell' : List Int)
+    (arr : List Pt)
+    (hsr : sampleRounds env bounds index useT nBatch rounds 0 0 [] tShell stream [] = some (points, nBound, idxT', tShell'))
+    (hu : useT = true → points.length + idxT'.length = nBound) :
+    (mvd useT idxT' arr).length + points.length ≤ nBound := by
+  obtain ⟨h1, h2, _, _⟩ := sampleRounds_spec_cc env bounds index useT nBatch rounds 0 0 [] tShell stream [] _ hsr rfl (le_refl _)
+  dsimp only at h1 h2
+  unfold mvd
+  split
+  · rename_i hc
+    have : useT = true := by cases useT <;> simp_all
+    have := hu this
+    simp; omega
+  · simp; omega
+
+/-! ### alignment is preserved by every step -/
+
+theorem alignedC_step (env : Env) (s : St) (op : Op) (ha : Aligned s) : Aligned (step env s op).1 := by
+  cases op with
+  | addBound r =>
+    cases r with
+    | none => simp only [step, addBound]; split <;> exact ha
+    | some b =>
+      simp only [step, addBound]
+      refine ⟨?_, addBoundOk_transfers env s b ha⟩
+      intro sh hsh
+      rcases addBoundOk_shells_mem env s b sh hsh with rfl | ⟨sh0, h0, rfl⟩
+      · exact ⟨rfl, rfl⟩
+      · obtain ⟨h1, h2⟩ := ha.1 sh0 h0
+        simp only [h1, h2, and_self]
+  | addSamples shA rs it =>
+    simp only [step]
+    rcases addSamples_nf env s shA rs it with ⟨h, _⟩ | ⟨points, nBound, idxT', tShell', hi, hsr, hu, heq⟩
+    · rw [h]; exact ha
+    · rw [heq]
+      obtain ⟨_, _, h3, _⟩ := sampleRounds_spec_cc _ _ _ _ _ _ _ _ _ _ _ _ _ hsr rfl (le_refl _)
+      refine ⟨?_, ha.2.1, ha.2.2.1, ?_⟩
+      · intro sh hsh
+        rcases mem_modify_cases _ _ _ _ hsh with h | ⟨y, hy, rfl⟩
+        · exact ha.1 sh h
+        · obtain ⟨h1, h2⟩ := ha.1 y hy
+          simp only [addF, h1, h2, ha.2.1, ha.2.2.1, and_self]
+      · dsimp only at h3 ⊢
+        rw [h3]; exact ha.2.2.2
+  | endExploration d =>
+    simp only [step]
+    refine ⟨?_, ha.2⟩
+    intro sh hsh
+    simp only [endExploration, setDiscard, updateAll, List.mem_map, List.mem_filter] at hsh
+    obtain ⟨sh1, ⟨sh0, ⟨h0, _⟩, rfl⟩, rfl⟩ := hsh
+    exact ha.1 sh0 h0
+  | setDiscard b =>
+    simp only [step]
+    refine ⟨?_, ha.2⟩
+    intro sh hsh
+    simp only [setDiscard, updateAll, List.mem_map] at hsh
+    obtain ⟨sh0, h0, rfl⟩ := hsh
+    exact ha.1 sh0 h0
+
+theorem exec_cons (env : Env) (s : St) (op : Op) (ops : List Op) :
+    exec env s (op :: ops) = exec env (step env s op).1 ops := rfl
+
+theorem alignedC_exec (env : Env) : ∀ (ops : List Op) (s : St), Aligned s → Aligned (exec env s ops)
+  | [], s, h => h
+  | op :: ops, s, h => by rw [exec_cons]; exact alignedC_exec env ops _ (alignedC_step env s op h)
+
+theorem alignedC_init (nBatch : Nat) : Aligned (init nBatch) := by
+  simp [Aligned, init]
+
+/-! ### the strengthened counting invariant -/
+
+def CShell (d e : Bool) (sh : Shell) : Prop :=
+  sh.nShown = (sh.ls.drop (if d && e then sh.endExp else 0)).length ∧ sh.pts.length ≤ sh.nSample ∧
+  (e = true → sh.pts ≠ [] ∧ sh.endExp ≤ sh.pts.length ∧ sh.nSampleExp ≤ sh.nSample ∧
+    (sh.pts.length - sh.endExp) + sh.nSampleExp ≤ sh.nSample)
+
+def CInv (s : St) : Prop := ∀ sh ∈ s.shells, CShell s.discard s.explored sh
+
+theorem cinv_step (env : Env) (s : St) (op : Op) (ha : Aligned s) (hc : CInv s) (hp : PhaseOK s op) :
+    CInv (step env s op).1 := by
+  cases op with
+  | addBound r =>
+    cases r with
+    | none => simp only [step, addBound]; split <;> exact hc
+    | some b =>
+      have he : s.explored = false := hp
+      simp only [step, addBound]
+      intro sh hsh
+      obtain ⟨f1, f2, _, _⟩ := addBoundOk_fields env s b
+      rw [f1, f2]
+      rcases addBoundOk_shells_mem env s b sh hsh with rfl | ⟨sh0, h0, rfl⟩
+      · refine ⟨by simp, by simp, ?_⟩
+        intro h; rw [he] at h; exact absurd h (by simp)
+      · obtain ⟨c1, c2, _⟩ := hc sh0 h0
+        refine ⟨rfl, ?_, ?_⟩
+        · exact le_trans (maskKeep_length_le _ _ _ _ _) c2
+        · intro h; rw [he] at h; exact absurd h (by simp)
+  | addSamples shA rs it =>
+    simp only [step]
+    rcases addSamples_nf env s shA rs it with ⟨h, _⟩ | ⟨points, nBound, idxT', tShell', hi, hsr, hu, heq⟩
+    · rw [h]; exact hc
+    · rw [heq]
+      intro sh hsh
+      dsimp only at hsh ⊢
+      rcases mem_modify_cases _ _ _ _ hsh with h | ⟨y, hy, rfl⟩
+      · exact hc sh h
+      · obtain ⟨c1, c2, c3⟩ := hc y hy
+        have hm := mvd_len _ _ _ _ _ _ _ _ _ _ _ _ s.tPts hsr hu
+        refine ⟨rfl, ?_, ?_⟩
+        · simp only [addF, List.length_append]; omega
+        · intro he
+          obtain ⟨d1, d2, d3, d4⟩ := c3 he
+          refine ⟨?_, ?_, ?_, ?_⟩
+          · simp only [addF]; intro hnil
+            simp only [List.append_eq_nil_iff] at hnil
+            exact d1 hnil.1.1
+          · simp only [addF, List.length_append]; omega
+          · simp only [addF]; omega
+          · simp only [addF, List.length_append]; omega
+  | endExploration d =>
+    have he : s.explored = false := hp
+    simp only [step]
+    intro sh hsh
+    simp only [endExploration, setDiscard, updateAll, List.mem_map, List.mem_filter] at hsh
+    obtain ⟨sh1, ⟨sh0, ⟨h0, hn⟩, rfl⟩, rfl⟩ := hsh
+    obtain ⟨c1, c2, _⟩ := hc sh0 h0
+    have hl := (ha.1 sh0 h0).1
+    rw [he] at c1
+    simp only [Bool.and_false, Bool.false_eq_true, if_false, List.drop_zero, hl] at c1
+    have hne : sh0.pts.length ≠ 0 := by
+      rw [← c1]; simpa using hn
+    refine ⟨?_, c2, ?_⟩
+    · simp [endExploration, setDiscard, updateAll, shown, start]
+    · intro _
+      refine ⟨?_, le_refl _, le_refl _, ?_⟩
+      · intro h; apply hne; simp only at h; rw [h]; rfl
+      · simp
+  | setDiscard b =>
+    simp only [step]
+    intro sh hsh
+    simp only [setDiscard, updateAll, List.mem_map] at hsh
+    obtain ⟨sh0, h0, rfl⟩ := hsh
+    obtain ⟨c1, c2, c3⟩ := hc sh0 h0
+    exact ⟨by simp [setDiscard, updateAll, shown, start], c2, c3⟩
+
+theorem cinv_exec (env : Env) : ∀ (ops : List Op) (s : St), Aligned s → CInv s → RunShaped env s ops →
+    Aligned (exec env s ops) ∧ CInv (exec env s ops)
+  | [], s, ha, hc, _ => ⟨ha, hc⟩
+  | op :: ops, s, ha, hc, hr => by
+    rw [exec_cons]
+    exact cinv_exec env ops _ (alignedC_step env s op ha) (cinv_step env s op ha hc hr.1) hr.2
+
+theorem counts_of_cinv (s : St) (ha : Aligned s) (hc : CInv s) : Counts s ∧ ExploredShape s := by
+  constructor
+  · intro sh hsh
+    obtain ⟨c1, c2, c3⟩ := hc sh hsh
+    have hl := (ha.1 sh hsh).1
+    rw [hl] at c1
+    refine ⟨c1, ?_⟩
+    split
+    · rename_i hde
+      have he : s.explored = true := by simp only [Bool.and_eq_true] at hde; exact hde.2
+      obtain ⟨d1, d2, d3, d4⟩ := c3 he
+      rw [hde] at c1
+      simp only [if_true, List.length_drop] at c1
+      exact ⟨by omega, d2⟩
+    · rename_i hde
+      have : (s.discard && s.explored) = false := by simpa using hde
+      rw [this] at c1
+      simp only [Bool.false_eq_true, if_false, List.drop_zero] at c1
+      omega
+  · intro he sh hsh
+    obtain ⟨_, _, c3⟩ := hc sh hsh
+    obtain ⟨d1, d2, d3, _⟩ := c3 he
+    exact ⟨d1, d2, d3⟩
+
+/-! ## the theorems -/
+
 /-- counting invariants hold in every state reachable with the phase discipline of `run()`, for every oracle
     sequence (nothing is assumed about what the numerics return) -/
 theorem counts_exec (env : Env) (nBatch : Nat) (ops : List Op) (hr : RunShaped env (init nBatch) ops) :
     Aligned (exec env (init nBatch) ops) ∧ Counts (exec env (init nBatch) ops) ∧
     ExploredShape (exec env (init nBatch) ops) := by
-  sorry
+  obtain ⟨ha, hc⟩ := cinv_exec env ops (init nBatch) (alignedC_init nBatch)
+    (by intro sh hsh; simp [init] at hsh) hr
+  exact ⟨ha, counts_of_cinv _ ha hc⟩
 
 /-- the per-shell arrays always have equal lengths (a corollary of alignment, stated separately) -/
 theorem lengths_exec (env : Env) (nBatch : Nat) (ops : List Op) :
     ∀ sh ∈ (exec env (init nBatch) ops).shells, sh.ls.length = sh.pts.length ∧ sh.bs.length = sh.pts.length := by
-  sorry
+  intro sh hsh
+  obtain ⟨h1, h2⟩ := (alignedC_exec env ops _ (alignedC_init nBatch)).1 sh hsh
+  rw [h1, h2]; exact ⟨rfl, rfl⟩
 
 /-- posterior rows are (point, its log-likelihood, its blob) triples of the visible rows, in storage order -/
 theorem posterior_rows (s : St) (h : Aligned s) :
     posteriorRows s = ((s.shells.map (visible s)).flatten).map (fun p => (p, p, p)) := by
-  sorry
+  unfold posteriorRows
+  rw [List.map_flatten, List.map_map]
+  congr 1
+  apply List.map_congr_left
+  intro sh hsh
+  obtain ⟨h1, h2⟩ := h.1 sh hsh
+  simp only [visible, visibleLs, visibleBs, h1, h2, Function.comp, zip_self3]
 
 /-- ... and each evaluated point appears at most once -/
 theorem posterior_nodup (s : St) (h : Aligned s) (hn : NoDup s) : ((posteriorRows s).map (·.1)).Nodup := by
-  sorry
+  rw [posterior_rows s h, List.map_map]
+  have : ((fun x : Pt × Pt × Pt => x.1) ∘ fun p : Pt => (p, p, p)) = id := rfl
+  rw [this, List.map_id]
+  exact (List.Nodup.of_append_left hn).sublist (flatten_drop_sublist (start s) s.shells)
 
 /-- a successful `add_samples` evaluates exactly one batch, counts it, and appends exactly those rows (after any
     transferred rows) to the three arrays of the target shell; all evaluated rows were proposed in this call -/
@@ -40,12 +510,45 @@ theorem addSamples_batch (env : Env) (s : St) (ha : Aligned s) (sh : Option Nat)
       (addSamples env s sh rounds idxT).1.shells[sh.getD (s.shells.length - 1)]? = some new ∧
       new.pts = old.pts ++ moved ++ evald ∧ new.ls = old.ls ++ moved ++ evald ∧ new.bs = old.bs ++ moved ++ evald ∧
       (sh.isSome → moved = []) := by
-  sorry
+  rcases addSamples_nf env s sh rounds idxT with ⟨_, h⟩ | ⟨points, nBound, idxT', tShell', hi, hsr, hu, heq⟩
+  · exact absurd hok h
+  obtain ⟨h1, _, _, h4⟩ := sampleRounds_spec_cc _ _ _ _ _ _ _ _ _ _ _ _ _ hsr rfl (le_refl _)
+  dsimp only at h1 h4
+  refine ⟨points, mvd (sh.isNone && !s.tShell.isEmpty) idxT' s.tPts, s.shells[sh.getD (s.shells.length - 1)],
+    addF s (sh.isNone && !s.tShell.isEmpty) idxT' points nBound (s.shells[sh.getD (s.shells.length - 1)]),
+    h1, ?_, ?_, ?_, ?_, ?_, ?_, ?_, ?_⟩
+  · rw [heq, h1]
+  · intro p hp
+    rcases h4 p hp with h | h
+    · simp at h
+    · exact h
+  · exact List.getElem?_eq_getElem hi
+  · rw [heq]
+    simp only [List.getElem?_modify_eq, List.getElem?_eq_getElem hi, Option.map_eq_map, Option.map_some]
+  · rfl
+  · simp only [addF, ha.2.1]
+  · simp only [addF, ha.2.2.1]
+  · intro hs
+    cases sh with
+    | none => simp at hs
+    | some i => simp [mvd]
 
 /-- an operation that is not a successful `add_samples` evaluates nothing -/
 theorem nLike_other (env : Env) (s : St) (op : Op)
     (h : ∀ sh rs it, op = .addSamples sh rs it → (step env s op).2 ≠ .ok) : (step env s op).1.nLike = s.nLike := by
-  sorry
+  cases op with
+  | addBound r =>
+    cases r with
+    | none => simp only [step, addBound]; split <;> rfl
+    | some b => exact (addBoundOk_fields env s b).2.2.1
+  | addSamples shA rs it =>
+    have h' := h shA rs it rfl
+    simp only [step] at h' ⊢
+    rcases addSamples_nf env s shA rs it with ⟨h1, _⟩ | ⟨points, nBound, idxT', tShell', hi, hsr, hu, heq⟩
+    · rw [h1]
+    · exfalso; apply h'; rw [heq]
+  | endExploration d => rfl
+  | setDiscard b => rfl
 
 /-- C12: after exploration, the operations of the sampling phase keep the phase, freeze the bounds and only
     append to the arrays of each shell -/
@@ -55,11 +558,59 @@ theorem sampling_step (env : Env) (s : St) (op : Op) (he : s.explored = true) (h
     ∀ (i : Nat) (a b : Shell), s.shells[i]? = some a → (step env s op).1.shells[i]? = some b →
       a.pts <+: b.pts ∧ a.ls <+: b.ls ∧ a.bs <+: b.bs ∧ b.endExp = a.endExp ∧ b.nSampleExp = a.nSampleExp ∧
       b.bound = a.bound := by
-  sorry
+  cases op with
+  | addBound r => exact absurd hop (by simp [SamplingOp])
+  | endExploration d => exact absurd hop (by simp [SamplingOp])
+  | addSamples shA rs it =>
+    cases shA with
+    | none => exact absurd hop (by simp [SamplingOp])
+    | some j =>
+      simp only [step]
+      rcases addSamples_nf env s (some j) rs it with ⟨h1, _⟩ | ⟨points, nBound, idxT', tShell', hi, hsr, hu, heq⟩
+      · rw [h1]
+        refine ⟨he, rfl, rfl, ?_⟩
+        intro i a b h1 h2
+        rw [h1] at h2
+        cases h2
+        exact ⟨List.prefix_refl _, List.prefix_refl _, List.prefix_refl _, rfl, rfl, rfl⟩
+      · rw [heq]
+        refine ⟨he, ?_, by simp, ?_⟩
+        · simp only [bounds]
+          apply map_modify_of_eq
+          intro x; rfl
+        · intro i a b h1 h2
+          dsimp only at h2
+          rw [List.getElem?_modify, h1] at h2
+          simp only [Option.map_eq_map, Option.map_some, Option.some.injEq] at h2
+          split at h2
+          · subst h2
+            refine ⟨?_, ?_, ?_, rfl, rfl, rfl⟩ <;> simp only [addF, List.append_assoc] <;>
+              exact List.prefix_append _ _
+          · subst h2
+            exact ⟨List.prefix_refl _, List.prefix_refl _, List.prefix_refl _, rfl, rfl, rfl⟩
+  | setDiscard d =>
+    simp only [step]
+    refine ⟨he, ?_, by simp [setDiscard, updateAll], ?_⟩
+    · simp [bounds, setDiscard, updateAll, List.map_map, Function.comp_def]
+    · intro i a b h1 h2
+      simp only [setDiscard, updateAll, List.getElem?_map, h1, Option.map_some, Option.some.injEq] at h2
+      subst h2
+      exact ⟨List.prefix_refl _, List.prefix_refl _, List.prefix_refl _, rfl, rfl, rfl⟩
 
 /-- no operation ever ends the explored phase -/
 theorem explored_mono (env : Env) (s : St) (op : Op) (he : s.explored = true) : (step env s op).1.explored = true := by
-  sorry
+  cases op with
+  | addBound r =>
+    cases r with
+    | none => simp only [step, addBound]; split <;> exact he
+    | some b => simp only [step, addBound]; rw [(addBoundOk_fields env s b).1]; exact he
+  | addSamples shA rs it =>
+    simp only [step]
+    rcases addSamples_nf env s shA rs it with ⟨h, _⟩ | ⟨points, nBound, idxT', tShell', hi, hsr, hu, heq⟩
+    · rw [h]; exact he
+    · rw [heq]; exact he
+  | endExploration d => rfl
+  | setDiscard b => exact he
 
 /-- the setter is a pure change of view: stored arrays and proposal counts are untouched -/
 theorem setDiscard_stored (s : St) (b : Bool) :
@@ -67,23 +618,61 @@ theorem setDiscard_stored (s : St) (b : Bool) :
       s.shells.map (fun sh => (sh.bound, sh.pts, sh.ls, sh.bs, sh.nSample, sh.nSampleExp, sh.endExp)) ∧
     (setDiscard s b).tPts = s.tPts ∧ (setDiscard s b).tShell = s.tShell ∧ (setDiscard s b).nLike = s.nLike ∧
     (setDiscard s b).explored = s.explored := by
-  sorry
+  refine ⟨?_, rfl, rfl, rfl, rfl⟩
+  simp only [setDiscard, updateAll, List.map_map]
+  rfl
 
 /-- switching twice restores everything; switching to the current value changes nothing once counts are fresh -/
 theorem setDiscard_toggle (s : St) (b b' : Bool) :
     setDiscard (setDiscard s b') b = setDiscard s b ∧ (Counts s → Aligned s → setDiscard s s.discard = s) := by
-  sorry
+  constructor
+  · simp only [setDiscard, updateAll, List.map_map]
+    congr 1
+  · intro hc ha
+    have hs : s.shells.map (fun sh => { sh with nShown := shown { s with discard := s.discard } sh }) = s.shells := by
+      conv_rhs => rw [← List.map_id s.shells]
+      apply List.map_congr_left
+      intro sh hsh
+      obtain ⟨h1, _⟩ := hc sh hsh
+      have h2 := (ha.1 sh hsh).1
+      cases sh with
+      | mk bd pts ls bs nS nSE eE nSh =>
+        simp only [visible, start] at h1
+        simp only at h2
+        subst h2
+        simp only [shown, start, id, Shell.mk.injEq, true_and]
+        exact h1.symm
+    simp only [setDiscard, updateAll, hs]
 
 /-- with discard on, the visible rows of a shell are exactly those appended after exploration ended -/
 theorem discard_view (s : St) (he : s.explored = true) (sh : Shell) (h : sh ∈ (setDiscard s true).shells) :
     visible (setDiscard s true) sh = sh.pts.drop sh.endExp ∧ sh.nShown = (sh.ls.drop sh.endExp).length := by
-  sorry
+  simp only [setDiscard, updateAll, List.mem_map] at h
+  obtain ⟨sh0, h0, rfl⟩ := h
+  simp [visible, start, shown, he, setDiscard, updateAll]
 
 /-- at the end of exploration empty shells are removed and the split point is the current length -/
 theorem endExploration_shape (s : St) (d : Bool) :
     (endExploration s d).explored = true ∧
     ∀ sh ∈ (endExploration s d).shells, sh.endExp = sh.pts.length ∧ sh.nSampleExp = sh.nSample ∧
       ∃ sh0 ∈ s.shells, sh0.nShown ≠ 0 ∧ sh.pts = sh0.pts ∧ sh.bound = sh0.bound := by
-  sorry
+  refine ⟨rfl, ?_⟩
+  intro sh hsh
+  simp only [endExploration, setDiscard, updateAll, List.mem_map, List.mem_filter] at hsh
+  obtain ⟨sh1, ⟨sh0, ⟨h0, hn⟩, rfl⟩, rfl⟩ := hsh
+  exact ⟨rfl, rfl, sh0, h0, by simpa using hn, rfl, rfl⟩
 
 end NautilusVerif.Core
+
+#print axioms NautilusVerif.Core.counts_exec
+#print axioms NautilusVerif.Core.lengths_exec
+#print axioms NautilusVerif.Core.posterior_rows
+#print axioms NautilusVerif.Core.posterior_nodup
+#print axioms NautilusVerif.Core.addSamples_batch
+#print axioms NautilusVerif.Core.nLike_other
+#print axioms NautilusVerif.Core.sampling_step
+#print axioms NautilusVerif.Core.explored_mono
+#print axioms NautilusVerif.Core.setDiscard_stored
+#print axioms NautilusVerif.Core.setDiscard_toggle
+#print axioms NautilusVerif.Core.discard_view
+#print axioms NautilusVerif.Core.endExploration_shape
